@@ -512,6 +512,77 @@ def r23(ctx):
     return f, fl, cur
 
 
+_PIPELINE = ("inf_retis", "find_blocks", "permanent_prob", "quick_prob", "random_prob", "fast_glynn_perm", "glynn_perm")
+_INT_TYPES = {"int", "np.int64", "np.int32", "np.int_", "np.intp", "'int'", "'int64'", "'int32'", "'i8'", "'i4'", "np.uint8", "np.uint64", "'uint8'"}
+_LOSSY_CALLS = {"floor", "ceil", "trunc", "rint", "round", "around", "fix", "floor_divide"}
+
+
+def _value_use(e, derived):
+    """A name of `derived` occurs in e as a value (not only under len() / .shape / .size / a comparison)."""
+    for x in ast.walk(e):
+        if isinstance(x, ast.Name) and x.id in derived:
+            p_, child, shielded = getattr(x, "_parent", None), x, False
+            while p_ is not None and child is not e:
+                if (isinstance(p_, ast.Call) and last_name(p_) in ("len", "shape", "count_nonzero")) or (isinstance(p_, ast.Attribute) and p_.attr in ("shape", "size", "ndim")) or isinstance(p_, ast.Compare):
+                    shielded = True
+                child, p_ = p_, getattr(p_, "_parent", None)
+            if not shielded:
+                return True
+    return False
+
+
+def r215(ctx):
+    """Weights are positive reals (high-acceptance weights are ratios; a row may be rescaled by any
+    positive factor without changing P). Nothing in the permanent pipeline may truncate or round a
+    weight matrix: `astype(int)` / `dtype=int` / floor / round / `//` on an array derived from the
+    weight-matrix parameter changes its zero pattern (0.5 -> 0) and its ratios. `astype(bool)`,
+    comparisons with 0 and float casts keep both."""
+    rid = "R-2.15"
+    cls = ctx.tree.cls(REPEX, "REPEX_state")
+    methods = {s.name: s for s in cls.body if isinstance(s, FUNC)}
+    n = 0
+    for name in _PIPELINE:
+        f = methods.get(name)
+        if f is None:
+            continue
+        params = [a.arg for a in f.args.args if a.arg != "self"]
+        if not params:
+            continue
+        # names derived from the matrix parameter by assignment (flow-insensitive closure is enough here)
+        derived = {params[0]}
+        changed = True
+        while changed:
+            changed = False
+            for st in walk_local(f):
+                if isinstance(st, ast.Assign) and len(st.targets) == 1 and isinstance(st.targets[0], ast.Name) and st.targets[0].id not in derived:
+                    v = st.value
+                    names = {x.id for x in ast.walk(v) if isinstance(x, ast.Name)}
+                    # values, not shapes / masks: skip len(), .shape, comparisons
+                    if names & derived and not isinstance(v, ast.Compare) and not (isinstance(v, ast.Call) and last_name(v) in ("len", "where", "argsort", "argmax", "argmin", "nonzero", "count_nonzero", "zeros", "zeros_like", "identity", "ones", "sum", "all", "any", "allclose", "arange", "shape")) and not (isinstance(v, ast.Attribute) and v.attr == "shape") and not (isinstance(v, ast.Subscript) and isinstance(v.value, ast.Attribute) and v.value.attr == "shape"):
+                        derived.add(st.targets[0].id)
+                        changed = True
+        n += 1
+        bad = []
+        for c in walk_local(f):
+            if isinstance(c, ast.Call) and isinstance(c.func, ast.Attribute) and c.func.attr == "astype" and c.args and ast.unparse(c.args[0]) in _INT_TYPES:
+                root = c.func.value
+                if _value_use(root, derived):
+                    bad.append((c, f"`{short(c, 50)}` casts weights to integers"))
+            if isinstance(c, ast.Call) and last_name(c) in _LOSSY_CALLS and c.args and _value_use(c.args[0], derived):
+                bad.append((c, f"`{short(c, 50)}` rounds weights"))
+            if isinstance(c, ast.Call) and last_name(c) in ("array", "asarray", "zeros_like", "empty_like", "full_like") and kwarg(c, "dtype") is not None and ast.unparse(kwarg(c, "dtype")) in _INT_TYPES and c.args and _value_use(c.args[0], derived) and last_name(c) in ("array", "asarray"):
+                bad.append((c, f"`{short(c, 50)}` copies weights into an integer array"))
+            if isinstance(c, ast.BinOp) and isinstance(c.op, ast.FloorDiv) and _value_use(c.left, derived):
+                bad.append((c, f"`{short(c, 50)}` floor-divides weights"))
+        for c, why in bad:
+            ctx.bad(rid, c, f"REPEX_state.{name}: {why}: a positive weight below 1 becomes 0 and ratios are lost - e.g. the block structure is counted from a matrix with fewer non-zero entries than W, inf_retis splits a real block or never emits the last one, and P is no longer W_ij perm(W^ij)/perm(W) nor invariant under rescaling a row (rows and columns may still sum to one)",
+                    construct=f"{name}: lossy cast of weights: {short(c, 50)}")
+        if not bad:
+            ctx.ok(rid, f, f"REPEX_state.{name}: no integer cast / rounding of an array derived from `{params[0]}`")
+    if n < 4:
+        raise AnalysisError(f"R-2.15: only {n} functions of the permanent pipeline found")
+
+
 def r214(ctx):
     """The row order handed to find_blocks is the staircase order of the *reach* of each path: the
     sort keys are functions of the zero pattern of the idle block (W > 0 / W != 0) only, never of the
@@ -1081,6 +1152,8 @@ def run(ctx):
     ctx.rule("R-2.2", "the getter computes P from the live weight matrix and busy flags and memoises that result", floor=2)
     ctx.rule("R-2.3", "busy rows and columns: one mask from `locks`, idle selector on both axes, zeros re-inserted on both axes at positions counted from the same mask", floor=4)
     ctx.rule("R-2.4", "the row sort is undone through the index array that sorted", floor=1)
+    ctx.rule("R-2.15", "weights stay real numbers through the whole permanent pipeline: no integer cast, rounding or floor division of an array derived from the weight matrix (zero pattern and ratios preserved; scale invariance)", floor=4)
+    ctx.attempt(r215, ctx)
     ctx.rule("R-2.14", "the staircase order of the idle block is computed from its zero pattern only (sort keys read W through W > 0, never the weights' values)", floor=1)
     ctx.attempt(r214, ctx)
     ctx.rule("R-2.5", "every kernel result is stored to the window it was computed from", floor=5)
@@ -1110,6 +1183,9 @@ def run(ctx):
 
 
 VARIANTS = [
+    B("c02-block-search-on-integer-work-copy", REPEX, "        temp_arr = arr.copy()\n", "        temp_arr = arr.astype(int)\n", "R-2.15", control=True, why="seeded C02_k"),
+    K("c02-keep-block-search-on-boolean-work-copy", REPEX, "        temp_arr = arr.copy()\n", "        temp_arr = (arr != 0).astype(float)\n", why="only the zero pattern is counted"),
+    K("c02-keep-block-search-on-float-copy", REPEX, "        temp_arr = arr.copy()\n", "        temp_arr = arr.astype(float)\n"),
     B("c02-plus-sort-key-from-weight-values", REPEX, "np.argsort(-1 * np.argmax(non_locked[offset:, ::-1] > 0, axis=1))", "np.argsort(-1 * np.argmax(non_locked[offset:, ::-1], axis=1))", "R-2.14", control=True, why="seeded C02_j"),
     B("c02-minus-sort-key-from-weight-values", REPEX, "minus_idx = np.argsort(np.argmax(non_locked[:offset] > 0, axis=1))", "minus_idx = np.argsort(np.argmax(non_locked[:offset], axis=1))", "R-2.14"),
     K("c02-keep-sort-key-nonzero-test", REPEX, "np.argsort(-1 * np.argmax(non_locked[offset:, ::-1] > 0, axis=1))", "np.argsort(-1 * np.argmax(non_locked[offset:, ::-1] != 0, axis=1))", why="weights are non-negative: != 0 is the same pattern"),
